@@ -403,7 +403,7 @@ class BlackbirdProgram:
             for k, v in self._var.items():
                 var_type = inv_type_map[np.array(v).dtype.kind]
                 array_string = ""
-                if isinstance(v, Iterable):
+                if isinstance(v, Iterable) and not isinstance(v, str):
                     for row in v:
                         array_string += "\n    " + "".join("{}, ".format(i) for i in row)[:-2]
                     script.append("{} array {} ={}".format(var_type, k, array_string))
